@@ -479,12 +479,13 @@ def _conversion(ctx):
     loader = index.module(K.LOADER)
     res = loader.functions.get('resources')
     ctx.require(res is not None, 'loader.resources')
-    # structure of resources(): dict of parsers + ordered key list
+    # structure of resources(): dict of parsers + ordered key list, or an
+    # unrolled list of parser(data.get(<dimension>, ...)) calls
     parsers = None
     order = None
     for sub in K.walk_no_nested(res.node):
-        if isinstance(sub, ast.Dict) and parsers is None and all(
-                isinstance(k, ast.Constant) for k in sub.keys):
+        if isinstance(sub, ast.Dict) and parsers is None and sub.keys and \
+                all(isinstance(k, ast.Constant) for k in sub.keys):
             parsers = {k.value: dotted_text(v) for k, v in
                        zip(sub.keys, sub.values)}
         if isinstance(sub, (ast.ListComp, ast.GeneratorExp)):
@@ -492,8 +493,28 @@ def _conversion(ctx):
             if isinstance(it, (ast.List, ast.Tuple)):
                 order = [e.value for e in it.elts
                          if isinstance(e, ast.Constant)]
-    ctx.require(parsers and order, 'parser table and dimension list in '
-                                   'loader.resources')
+    if parsers is None or order is None:
+        for sub in K.walk_no_nested(res.node):
+            if isinstance(sub, ast.Return) and isinstance(
+                    sub.value, (ast.List, ast.Tuple)):
+                parsers, order = {}, []
+                for elt in sub.value.elts:
+                    elt = K.rexpr(res, elt)
+                    key = None
+                    if isinstance(elt, ast.Call) and len(elt.args) == 1:
+                        arg = elt.args[0]
+                        if isinstance(arg, ast.Call) and K.is_meth(
+                                arg, 'get') and arg.args and isinstance(
+                                    arg.args[0], ast.Constant):
+                            key = arg.args[0].value
+                        elif isinstance(arg, ast.Subscript) and isinstance(
+                                arg.slice, ast.Constant):
+                            key = arg.slice.value
+                    if key is None:
+                        parsers = order = None
+                        break
+                    parsers[key] = dotted_text(elt.func)
+                    order.append(key)
     ctx.ob('C01.5', res, None, set(parsers) == set(order) and
            len(order) == len(set(order)),
            'dimension list %s = parser table keys %s' % (
@@ -635,13 +656,15 @@ def _units(ctx):
 
     def divisor(func, callee):
         for sub in K.walk_no_nested(func.node):
-            if isinstance(sub, ast.Return) and \
-                    isinstance(sub.value, ast.BinOp) and \
-                    isinstance(sub.value.op, (ast.FloorDiv, ast.Div)) and \
-                    isinstance(sub.value.left, ast.Call) and \
-                    dotted_text(sub.value.left.func) == callee and \
-                    isinstance(sub.value.right, ast.Constant):
-                return sub.value.right.value, sub
+            if not isinstance(sub, ast.Return) or sub.value is None:
+                continue
+            val = K.rexpr(func, sub.value)
+            if isinstance(val, ast.BinOp) and \
+                    isinstance(val.op, (ast.FloorDiv, ast.Div)) and \
+                    isinstance(val.left, ast.Call) and \
+                    dotted_text(val.left.func) == callee and \
+                    isinstance(val.right, ast.Constant):
+                return val.right.value, sub
         return None, None
     val, node = divisor(kb, 'size_to_bytes')
     ctx.ob('C01.7', kb, node, val == 1024,
